@@ -13,19 +13,21 @@ rooms ordered by their smallest cell).  Cap rule per shape, over (structure, clu
 clue layouts having <= k clued rooms over -1 | 0 1 2, where k is the largest number keeping the total <= cap, but never
 less than kmin (kmin = 0: at least every structure without clues; kmin = 1: at least every single clue).
 
-Rule ambiguity decided here (NOT in the DESIGN.md envelope; it only concerns the room form with non-rectangular rooms):
+Rule reading decided here (NOT in the DESIGN.md envelope; it only concerns the room form with non-rectangular rooms):
 a straight white run that leaves room A, crosses room B and re-enters room A crosses two room borders but meets only two
-rooms.  Nikoli's statement is written for rectangular rooms, where "three rooms" and "two borders" coincide.  READINGS
-lists the readings offered; with both listed the solver must match one of them; readings() returns a single list whenever
-the readings give the same solution set (always for rectangular rooms).
+distinct rooms.  Nikoli's statement is written for rectangular rooms, where "three rooms" and "two borders" coincide;
+non-rectangular rooms exist only on puzz.link (pzv.jp, the site the module's example URL points to), whose answer check
+counts borders: a white run may cross at most one room border.  That is the single reading enforced ("borders").
+READINGS may be extended to ("borders", "rooms") to also admit the literal "at most two distinct rooms" reading;
+readings() returns one list per listed reading, merged when the solution sets coincide (always for rectangular rooms).
 """
 
 import itertools
 
 from . import base
 
-READINGS = ("borders", "rooms")  # "borders": a white run crosses at most one room border (puzz.link's answer check);
-#                                   "rooms": a white run meets at most two distinct rooms (literal Nikoli wording)
+READINGS = ("borders",)  # "borders": a white run crosses at most one room border (puzz.link's answer check);
+#                          "rooms": a white run meets at most two distinct rooms (literal wording, not enforced)
 
 _CAND = {}
 _STRUCT = {}
